@@ -111,7 +111,8 @@ func (watcher *RequestWatcher) manageTTLs() {
 		}
 
 		if verifhook.Enabled {
-			verifhook.Emit("queue.watcher-wait", strconv.FormatInt(int64(waitDuration), 10))
+			verifhook.Emit("queue.watcher-wait", strconv.FormatInt(int64(waitDuration), 10),
+				strconv.FormatInt(nextExpiration.UnixNano(), 10))
 		}
 		select {
 		case <-time.After(waitDuration):
